@@ -723,6 +723,7 @@ _BTree_set(BTree *self, PyObject *keyarg, PyObject *value,
     int childlength;    /* len(self->data[min].child) */
     int status;         /* our return value; and return value from callee */
     int self_was_empty; /* was self empty at entry? */
+    int sepcmp = 1;     /* key compared with the node key of child min */
 
     KEY_TYPE key;
     int copied = 1;
@@ -757,6 +758,16 @@ _BTree_set(BTree *self, PyObject *keyarg, PyObject *value,
     /* Find the right child to search, and hand the work off to it. */
     BTREE_SEARCH(min, self, key, goto Error);
     d = self->data + min;
+
+    /* On a delete we have to know whether the key is the child's node key
+     * (see below).  Find out now:  the comparison can fail, and it must not
+     * fail after the child has been changed, before the bookkeeping for an
+     * emptied child is done.
+     */
+    if (!value && min)
+    {
+        TEST_KEY_SET_OR(sepcmp, key, d->key) goto Error;
+    }
 
 #ifdef PERSISTENT
     PER_READCURRENT(self, goto Error);
@@ -834,9 +845,7 @@ _BTree_set(BTree *self, PyObject *keyarg, PyObject *value,
 
         This doesn't apply to the 0th node, whos key is unused.
         */
-        int _cmp = 1;
-        TEST_KEY_SET_OR(_cmp, key, d->key) goto Error;
-        if (_cmp == 0) /* Need to replace key with first key from child */
+        if (sepcmp == 0) /* Need to replace key with first key from child */
         {
             Bucket *bucket;
 
